@@ -197,7 +197,16 @@ func (s *JavaFullListener) EnterInterfaceBodyDeclaration(ctx *parser.InterfaceBo
 }
 
 func (s *JavaFullListener) EnterInterfaceMethodDeclaration(ctx *parser.InterfaceMethodDeclarationContext) {
-	bodyDecl := ctx.InterfaceCommonBodyDeclaration().(*parser.InterfaceCommonBodyDeclarationContext)
+	enterInterfaceMethod(ctx, ctx.InterfaceCommonBodyDeclaration())
+}
+
+// `<T> T pick(T a);` is a rule of its own in the grammar, it does not contain an interfaceMethodDeclaration
+func (s *JavaFullListener) EnterGenericInterfaceMethodDeclaration(ctx *parser.GenericInterfaceMethodDeclarationContext) {
+	enterInterfaceMethod(ctx, ctx.InterfaceCommonBodyDeclaration())
+}
+
+func enterInterfaceMethod(ctx antlr.ParserRuleContext, body parser.IInterfaceCommonBodyDeclarationContext) {
+	bodyDecl := body.(*parser.InterfaceCommonBodyDeclarationContext)
 	name := bodyDecl.Identifier().GetText()
 	typeType := bodyDecl.TypeTypeOrVoid().GetText()
 
